@@ -49,8 +49,9 @@ Theorem C19_stmt_roundtrip :
   forall W R arity, names_ok W R arity ->
   forall s, stmt_ok R arity s = true -> parse_stmt R (pr_stmt W s) = Some (norm_stmt s).
 Proof.
-  intros W R arity HN [iv c|tm e] H;
-    [exact (C19_stmt_condition_roundtrip W R arity HN iv c H)|exact (C19_stmt_effect_roundtrip W R arity HN tm e H)].
+  intros W R arity HN [iv c|tm e|tm e] H;
+    [exact (C19_stmt_condition_roundtrip W R arity HN iv c H)|exact (C19_stmt_effect_roundtrip W R arity HN tm e H)
+    |discriminate H].
 Qed.
 Print Assumptions C19_stmt_roundtrip.
 
